@@ -43,14 +43,18 @@ register(
     level="proof",
     explanation="retry/stop decision table of should_rerun proved per configuration case; uid / own result / verdict obligations",
     trusted=[],
-    undecided_clauses=[],
+    undecided_clauses=["should_rerun with replay given and rerun_status present but empty (3 of 27 configuration cases): "
+                       "no proof and no counter-model within budget"],
 )
-LEVEL_TEXT["C10"] = ("The retry/stop decision table of should_rerun is proved (27 configuration cases, unbounded result "
-                     "lists, all settings incl. invalid ones); default_run_decision is proved against it.")
+LEVEL_TEXT["C10"] = ("The retry/stop decision table of should_rerun is proved per configuration case (presence / emptiness of "
+                     "replay, rerun_status, stop_status: 8 cases in the quick tier, 24 of the 27 in the thorough tier; the three "
+                     "cases with replay given and an explicitly empty rerun_status are not discharged within budget and stay "
+                     "undecided), for unbounded result lists and all settings incl. invalid ones; default_run_decision, the "
+                     "runner's uid / own-result / verdict clauses are proved against it.")
 
 register(
     "C03",
-    modules=["contracts.c16", "contracts.node_getters", "contracts.node_decisions", "contracts.node_edges", "contracts.runner", "contracts.traversal"],
+    modules=["contracts.c16", "contracts.node_getters", "contracts.node_decisions", "contracts.node_edges", "contracts.runner", "contracts.traversal", "contracts.scan_states"],
     level="proof",
     explanation="run decision, retry budget clause, placeholder accounting",
     trusted=[],
@@ -226,7 +230,7 @@ PROPS["C20"].update(
     trusted=PROPS["C20"]["trusted"] + ["step functions are seams (None, any integer, any Exception)"])
 
 TRAVERSAL_MODULES = ["contracts.c16", "contracts.node_getters", "contracts.node_decisions", "contracts.node_edges",
-                     "contracts.traversal", "contracts.loop_blocks", "contracts.pull_locations"]
+                     "contracts.traversal", "contracts.loop_blocks", "contracts.pull_locations", "contracts.scan_states"]
 register(
     "C01",
     modules=TRAVERSAL_MODULES,
@@ -282,3 +286,5 @@ PROPS["C11"].update(
                 "(TestNode.update_restrs, loop body extracted) is additionally proved: the restriction line is appended unless "
                 "exactly that line is already present, other objects' restrictions are untouched (E1); the only/no filters over "
                 "objects and nodes are compared with an independent matcher (bounded).")
+
+PROPS["C08"]["modules"] = list(PROPS["C08"]["modules"]) + ["contracts.worker"]
